@@ -339,6 +339,18 @@ pub fn generate(tier: &str, rng: &mut Rng) -> (Vec<String>, bool) {
             }
         }
     }
+    // min-max normalisation of such integers: the differences `v - min`, `max - min` are small and
+    // must be formed before the conversion to f64 (neighbours collapse when converted first)
+    let pool_pos: Vec<String> = [0i64, 1, 2, 3, 4].iter().map(|k| (big + k).to_string()).collect();
+    let pool_pos_refs: Vec<&str> = pool_pos.iter().map(|s| s.as_str()).collect();
+    for len in 2..=4usize {
+        for (si, xs) in all_series(&pool_pos_refs, len).into_iter().enumerate() {
+            if si % 2 != 0 && len >= 4 { continue; }
+            for w in 2..=len + 1 {
+                out.push(format!("ts_vminmaxnorm w={} mp=1 t=i64 o=f64 xs={}", w, join(&xs)));
+            }
+        }
+    }
     // the same requests at tiny scales (2^-50, 2^-60): a spread far below any epsilon is still a spread
     crate::cases::add_scaled(&mut out, 13, &[50, 60], &["xs"]);
     (out, true)
